@@ -1527,7 +1527,7 @@ func (in *inliner) expandDecl(ctx *fctx) {
 
 const markerFn = "__pdsa_line__"
 
-var markerRe = regexp.MustCompile(`(?m)^[ \t]*` + markerFn + `\("([^"]*)", (\d+)\)[ \t]*$`)
+var markerRe = regexp.MustCompile(`[ \t]*` + markerFn + `\("([^"]*)", (\d+)\)[ \t]*`)
 
 func (in *inliner) lineOf(n ast.Node) (string, int, bool) {
 	r := in.root(n)
@@ -1566,6 +1566,20 @@ func (in *inliner) addMarkers(body *ast.BlockStmt) {
 
 func (in *inliner) printDecl(d *ast.FuncDecl) ([]byte, error) {
 	in.addMarkers(d.Body)
+	// comments attached to declarations inside the body would be interleaved by position
+	ast.Inspect(d, func(n ast.Node) bool {
+		switch x := n.(type) {
+		case *ast.ValueSpec:
+			x.Doc, x.Comment = nil, nil
+		case *ast.TypeSpec:
+			x.Doc, x.Comment = nil, nil
+		case *ast.GenDecl:
+			x.Doc = nil
+		case *ast.Field:
+			x.Doc, x.Comment = nil, nil
+		}
+		return true
+	})
 	doc := d.Doc
 	d.Doc = nil
 	var buf bytes.Buffer
@@ -1574,9 +1588,15 @@ func (in *inliner) printDecl(d *ast.FuncDecl) ([]byte, error) {
 	if err != nil {
 		return nil, err
 	}
-	out := markerRe.ReplaceAll(buf.Bytes(), []byte("//line $1:$2"))
-	if bytes.Contains(out, []byte(markerFn)) {
-		return nil, fmt.Errorf("line marker not on its own line")
+	// a marker the printer kept on a line with other tokens ({ marker; stmt }) gets lines of its own;
+	// a `;` left behind is an empty statement
+	out := markerRe.ReplaceAll(buf.Bytes(), []byte("\n//line $1:$2\n"))
+	if i := bytes.Index(out, []byte(markerFn)); i >= 0 {
+		j := i + 120
+		if j > len(out) {
+			j = len(out)
+		}
+		return nil, fmt.Errorf("line marker in an unexpected form: %q", out[i:j])
 	}
 	return out, nil
 }
